@@ -1061,6 +1061,13 @@ func init() {
 			Conc:  []pact{{Op: "opensync", R: 1, T: "k1", K: "soc"}, {Op: "inc", R: 0, P: 1, T: "k1|"}},
 			AtEnd: []string{"quiescent", "log", "converge", "reference"}, NoClose: true}
 		_ = rtJoin
+		// a realtime client enters two existing datatypes one right after the other (Subscribe, or SubscribeOrCreate):
+		// both become subscribed without any Sync() call, whatever is under way when the second call is made
+		rtEnter := func(mode string) e2sched {
+			return e2sched{E2: e2p{Clients: 2, Type: "counter", Keys: []string{"k1", "k2"}, Prefix: "created", SyncType: "realtime", Tolerant: true},
+				Conc:  []pact{{Op: "seq", R: 1, Sub: []pact{{Op: "openonly", R: 1, T: "k1", K: mode}, {Op: "openonly", R: 1, T: "k2", K: mode}}}},
+				AtEnd: []string{"quiescent", "log", "onedoc", "converge"}, NoClose: true}
+		}
 		// a realtime client issues two operations in a row and then runs a transaction that fails and is rolled back:
 		// whatever is under way when the transaction is open, both operations reach the other client without any Sync()
 		rtAbort := func(pol *spolicy) e2sched {
@@ -1071,6 +1078,7 @@ func init() {
 		}
 		if tier == "quick" {
 			p.Runs = append(p.Runs, schedRun("realtime-join-next-to-an-operation-b2", 2, rtJoin, 0))
+			p.Runs = append(p.Runs, schedRun("realtime-two-subscriptions-in-a-row-b1", 1, rtEnter("subscribe"), 0), schedRun("realtime-two-subscribe-or-creates-in-a-row-b1", 1, rtEnter("soc"), 0))
 			p.Runs = append(p.Runs, schedRun("realtime-aborted-transaction-next-to-deliveries-b2", 2, rtAbort(nil), 0),
 				schedRun("realtime-aborted-transaction-next-to-deliveries-eager-b2", 2, rtAbort(&spolicy{EagerSpawn: true, FastNotify: true}), 0))
 			p.Runs = append(p.Runs, schedRun("realtime-sync-call-next-to-an-operation-b2", 2, rtSync, 0))
@@ -1082,6 +1090,7 @@ func init() {
 		} else {
 			p.Runs = append(p.Runs, schedRun("realtime-two-datatypes-one-client-b2", 2, rt2k, 0), schedRun("realtime-key-with-slash-b2", 2, rtSlash, 0),
 				schedRun("realtime-sync-call-next-to-an-operation-b3", 3, rtSync, 0), schedRun("realtime-join-next-to-an-operation-b2", 2, rtJoin, 0))
+			p.Runs = append(p.Runs, schedRun("realtime-two-subscriptions-in-a-row-b2", 2, rtEnter("subscribe"), 0), schedRun("realtime-two-subscribe-or-creates-in-a-row-b2", 2, rtEnter("soc"), 0))
 			p.Runs = append(p.Runs, schedRun("realtime-aborted-transaction-next-to-deliveries-b3", 3, rtAbort(nil), 0),
 				schedRun("realtime-aborted-transaction-next-to-deliveries-eager-b3", 3, rtAbort(&spolicy{EagerSpawn: true, FastNotify: true}), 0))
 			p.Runs = append(p.Runs, schedRun("realtime-counter-slow-listener-b2", 2, rtl("counter"), 0), schedRun("realtime-list-slow-listener-b1", 1, rtl("list"), 0))
